@@ -24,6 +24,15 @@
 #include "qlibc.h"
 #include <inttypes.h>
 
+/* AMBIENT errno: before every library call the harness plants the next value of this cycle; no
+ * result, no reported errno and no state may depend on what the caller happened to have in errno
+ * (a failing call has to SET errno where the harness reports it) */
+static const int PLANTS[8] = {0, ENOMEM, ERANGE, EINTR, ENOENT, EINVAL, EAGAIN, ENOBUFS};
+static unsigned long plant_n = 0;
+static int planted = 0;
+#define PLANT() (errno = planted = PLANTS[plant_n++ % 8])
+#define PLANT_NOT(x) do { PLANT(); if (planted == (x)) PLANT(); } while (0)
+
 typedef struct { void *p; void *dup; size_t n; } kept_t;
 static kept_t *kept; static size_t nkept, capkept;
 static long kept_bad = 0;
@@ -83,7 +92,7 @@ static void reset_cur(void) { memset(&CUR, 0, sizeof(CUR)); live = true; fresh =
 
 /* one getnext call through CUR; prints `true <obj>` or `false <errno>` */
 static bool do_next(const char *name, bool newmem, bool window) {
-    errno = 0;
+    PLANT();
     if (window) aw_begin();
     bool r = T->getnext(T, &CUR, name, newmem);
     int e = errno;
@@ -104,16 +113,26 @@ static bool all_values_cstr(void) {
 
 /* body of the saved file = everything after the first line (the `# path time` comment) */
 static char *file_body(size_t *n) {
-    size_t sz = 0;
-    char *all = qfile_load(path, &sz);
-    if (!all) { *n = 0; return NULL; }
+    /* read with stdio, not with the library under test */
+    *n = 0;
+    FILE *f = fopen(path, "rb");
+    if (!f) return NULL;
+    size_t cap = 1 << 16, sz = 0;
+    char *all = malloc(cap);
+    for (;;) {
+        size_t got = fread(all + sz, 1, cap - sz, f);
+        sz += got;
+        if (got == 0) break;
+        if (sz == cap) { cap *= 2; all = realloc(all, cap); }
+    }
+    fclose(f);
     char *nl = memchr(all, '\n', sz);
     size_t off = nl ? (size_t)(nl - all) + 1 : sz;
     if (!(sz >= 2 && all[0] == '#' && all[1] == ' ')) off = 0;   /* no header: show everything */
     char *b = malloc(sz - off + 1);
     memcpy(b, all + off, sz - off);
     *n = sz - off;
-    vf_free(all);                                                /* allocated by the library */
+    free(all);
     return b;
 }
 
@@ -131,7 +150,7 @@ static bool own_node(const char *name, qlisttbl_obj_t *out) {
 static void do_debug(void) {
     char *buf = NULL; size_t n = 0;
     FILE *f = open_memstream(&buf, &n);
-    errno = 0;
+    PLANT();
     bool r = T->debug(T, f);
     fclose(f);
     printf("debug %d ", (int) r); puthex(stdout, buf, n);
@@ -253,7 +272,7 @@ int main(void) {
             if (nw < 3 || !unhex(w[1], &a)) { printf("bad-op\n"); continue; }
             name = cstr_exact(&a);
         }
-        errno = 0;
+        PLANT();
         if ((!strcmp(op, "fault") || !strcmp(op, "faultfrom")) && nw == 2) {
             aw_arm(atol(w[1]), op[5] == 'f');
             printf("ok"); dump(); printf("\n");
@@ -266,7 +285,7 @@ int main(void) {
             for (int i = 0; i < 4; i++) OPT[i] = w[i + 1][0] == '1';
             long before = aw_live;
             aw_begin();
-            errno = 0;
+            PLANT();
             T = mk(OPT[0], OPT[1], OPT[2], OPT[3], ts);
             int e = errno;
             printf("allocs=%ld ", aw_end());
@@ -317,7 +336,7 @@ int main(void) {
             void *p = T->get(T, name, &sz, false);
             if (p && !memchr(p, 0, sz)) printf("nonul");
             else if (op[3] == 's') {
-                errno = 0;
+                PLANT();
                 aw_begin();
                 char *s = T->getstr(T, name, true);
                 int e = errno;
@@ -325,7 +344,7 @@ int main(void) {
                 if (s) { printf("str "); puthex(stdout, s, strlen(s)); keep(s, strlen(s) + 1); }
                 else printf("null %s", errname(e));
             } else {
-                errno = 0;
+                PLANT_NOT(ENOMEM);
                 aw_begin();
                 int64_t v = T->getint(T, name);
                 int e = errno;
@@ -403,7 +422,7 @@ int main(void) {
                 printf(" ");
                 if (!do_next(nm, rmcopies, false)) break;
                 if (i < 64 && ((mask >> i) & 1)) {
-                    errno = 0;
+                    PLANT();
                     bool r = T->removeobj(T, &CUR);
                     printf(r ? " removed" : " notremoved-%s", errname(errno));
                 }
@@ -415,7 +434,7 @@ int main(void) {
             bool enc = w[2][0] == '1';
             if (!enc && !all_values_cstr()) printf("nonul");
             else {
-                errno = 0;
+                PLANT();
                 aw_begin();
                 bool r = T->save(T, path, (char) sp.p[0], enc);
                 int e = errno;
@@ -430,7 +449,7 @@ int main(void) {
         } else if (!strcmp(op, "load") && nw == 4 && unhex(w[1], &d)) {
             bytes_t sp; unhex(w[2], &sp);
             FILE *f = fopen(path, "wb"); fwrite(d.p, 1, d.n, f); fclose(f);
-            errno = 0;
+            PLANT();
             aw_begin();
             ssize_t n = T->load(T, path, (char) sp.p[0], w[3][0] == '1');
             int e = errno;
@@ -463,7 +482,7 @@ int main(void) {
             bool str = mode & 1;
             if (p == NULL || off > sz || (!str && off + ln > sz) || (str && !memchr(p + off, 0, sz - off))) printf("skip");
             else {
-                errno = 0;
+                PLANT();
                 aw_begin();
                 bool r = str ? T->putstr(T, name, (char *) p + off) : T->put(T, name, p + off, ln);
                 int e = errno;
@@ -475,7 +494,7 @@ int main(void) {
             qlisttbl_obj_t o;
             if (!own_node(name, &o) || off > strlen(o.name)) printf("skip");
             else {
-                errno = 0;
+                PLANT();
                 aw_begin();
                 bool r = T->put(T, o.name + off, d.p, d.n);
                 int e = errno;
@@ -492,36 +511,36 @@ int main(void) {
             static const char key[] = "invkey";
             size_t sz = 99; int e[32]; int r[32]; int i = 0;
             aw_arm(0, 0);
-            errno = 0; r[i] = T->put(T, NULL, "v", 2); e[i++] = errno;
-            errno = 0; r[i] = T->put(T, key, NULL, 2); e[i++] = errno;
-            errno = 0; r[i] = T->put(T, key, "v", 0); e[i++] = errno;
-            errno = 0; r[i] = T->putstr(T, NULL, "v"); e[i++] = errno;
-            errno = 0; r[i] = T->putstr(T, key, NULL); e[i++] = errno;
-            errno = 0; r[i] = T->putstrf(T, NULL, "%s", "v"); e[i++] = errno;
-            errno = 0; r[i] = T->putint(T, NULL, 7); e[i++] = errno;
-            errno = 0; r[i] = T->get(T, NULL, &sz, false) != NULL; e[i++] = errno;
-            errno = 0; r[i] = T->get(T, NULL, &sz, true) != NULL; e[i++] = errno;
-            errno = 0; r[i] = T->get(T, NULL, NULL, true) != NULL; e[i++] = errno;
-            errno = 0; r[i] = T->getstr(T, NULL, false) != NULL; e[i++] = errno;
-            errno = 0; r[i] = T->getstr(T, NULL, true) != NULL; e[i++] = errno;
-            errno = 0; r[i] = T->getint(T, NULL) != 0; e[i++] = errno;
-            errno = 0; r[i] = T->save(T, NULL, '=', true); e[i++] = errno;
+            PLANT(); r[i] = T->put(T, NULL, "v", 2); e[i++] = errno;
+            PLANT(); r[i] = T->put(T, key, NULL, 2); e[i++] = errno;
+            PLANT(); r[i] = T->put(T, key, "v", 0); e[i++] = errno;
+            PLANT(); r[i] = T->putstr(T, NULL, "v"); e[i++] = errno;
+            PLANT(); r[i] = T->putstr(T, key, NULL); e[i++] = errno;
+            PLANT(); r[i] = T->putstrf(T, NULL, "%s", "v"); e[i++] = errno;
+            PLANT(); r[i] = T->putint(T, NULL, 7); e[i++] = errno;
+            PLANT(); r[i] = T->get(T, NULL, &sz, false) != NULL; e[i++] = errno;
+            PLANT(); r[i] = T->get(T, NULL, &sz, true) != NULL; e[i++] = errno;
+            PLANT(); r[i] = T->get(T, NULL, NULL, true) != NULL; e[i++] = errno;
+            PLANT(); r[i] = T->getstr(T, NULL, false) != NULL; e[i++] = errno;
+            PLANT(); r[i] = T->getstr(T, NULL, true) != NULL; e[i++] = errno;
+            PLANT(); r[i] = T->getint(T, NULL) != 0; e[i++] = errno;
+            PLANT(); r[i] = T->save(T, NULL, '=', true); e[i++] = errno;
             int nein = i;
-            errno = 0; r[i] = (int) T->remove(T, NULL); e[i++] = errno;
-            errno = 0; r[i] = T->removeobj(T, NULL); e[i++] = errno;
-            errno = 0; r[i] = T->getnext(T, NULL, NULL, false); e[i++] = errno;
-            errno = 0; r[i] = T->getnext(T, NULL, key, true); e[i++] = errno;
-            errno = 0; r[i] = T->debug(T, NULL); e[i++] = errno;           /* documented: EIO */
-            errno = 0; r[i] = T->save(T, "/nonexistent-dir/qlt", '=', true); e[i++] = errno;      /* false */
-            errno = 0; r[i] = (int) T->load(T, "/nonexistent-dir/qlt", '=', true); e[i++] = errno; /* -1 */
+            PLANT(); r[i] = (int) T->remove(T, NULL); e[i++] = (errno == planted) ? -1 : errno;   /* no errno documented: `kept` = untouched */
+            PLANT(); r[i] = T->removeobj(T, NULL); e[i++] = (errno == planted) ? -1 : errno;   /* no errno documented: `kept` = untouched */
+            PLANT(); r[i] = T->getnext(T, NULL, NULL, false); e[i++] = (errno == planted) ? -1 : errno;   /* no errno documented: `kept` = untouched */
+            PLANT(); r[i] = T->getnext(T, NULL, key, true); e[i++] = (errno == planted) ? -1 : errno;   /* no errno documented: `kept` = untouched */
+            PLANT(); r[i] = T->debug(T, NULL); e[i++] = errno;           /* documented: EIO */
+            PLANT(); r[i] = T->save(T, "/nonexistent-dir/qlt", '=', true); e[i++] = errno;      /* false */
+            PLANT(); r[i] = (int) T->load(T, "/nonexistent-dir/qlt", '=', true); e[i++] = errno; /* -1 */
             T->freemulti(NULL);                                           /* documented no-op */
             printf("inv");
-            for (int j = 0; j < i; j++) printf("%s %d:%s", j == nein ? " /" : "", r[j], e[j] == EIO ? "EIO" : errname(e[j]));
+            for (int j = 0; j < i; j++) printf("%s %d:%s", j == nein ? " /" : "", r[j], e[j] == -1 ? "kept" : e[j] == EIO ? "EIO" : errname(e[j]));
             printf(" sz=%zu", sz);
             /* NOT documented either way: a NULL name makes getmulti return every entry (full scan
              * of getnext); shown so that the model has to predict it */
             size_t n = 12345;
-            errno = 0;
+            PLANT();
             qlisttbl_data_t *objs = T->getmulti(T, NULL, true, &n);
             printf(" gmnull=%zu:%s", n, objs ? "0" : errname(errno));
             if (objs) T->freemulti(objs);
@@ -530,7 +549,7 @@ int main(void) {
              * call (it takes the lock again) inside lock() ... unlock(); ANOTHER thread then finds the
              * mutex busy (the outer lock is still in force) and free after unlock() */
             T->lock(T);
-            errno = 0;
+            PLANT();
             void *p = T->get(T, "lock-probe-absent-key", NULL, false);
             int e = errno;
             size_t n1 = T->size(T);
